@@ -171,6 +171,9 @@ def _lift(x):
 
 
 class _PLit(P):
+    def sample(self, rng):
+        return repr(self.v)
+
     def __init__(self, v):
         self.v = v
 
@@ -182,6 +185,21 @@ class _PLit(P):
 
 
 class _PInt(P):
+    def sample(self, rng):
+        lo = self.lo if self.lo is not None else -(1 << 70)
+        hi = self.hi if self.hi is not None else (1 << 70)
+        pool = [0, 1, -1, 2, 127, 128, 255, 256, 32767, 32768, 65535, 65536, 2**31 - 1, 2**31, 2**32 - 1, 2**32,
+                2**63 - 1, 2**63, 2**64 - 1, 2**64, -128, -129, -32768, -32769, -2**31, -2**31 - 1, -2**63, -2**63 - 1]
+        pool = [x for x in pool if lo <= x <= hi] or [lo]
+        r = rng.random()
+        if r < 0.5:
+            return repr(rng.choice(pool))
+        if r < 0.75:
+            return repr(max(lo, min(hi, rng.choice(pool) + rng.randint(-3, 3))))
+        bits = rng.choice([8, 16, 32, 64, 70])
+        v = rng.getrandbits(bits) * rng.choice([1, -1])
+        return repr(max(lo, min(hi, v)))
+
     def __init__(self, lo, hi):
         self.lo, self.hi = lo, hi
 
@@ -201,6 +219,9 @@ class _PInt(P):
 
 
 class _PBool(P):
+    def sample(self, rng):
+        return repr(rng.random() < 0.5)
+
     def make(self, name):
         from .sym import ctx, SBool
         import z3
@@ -213,6 +234,19 @@ class _PBool(P):
 
 
 class _PBytes(P):
+    def sample(self, rng):
+        if self.len is not None:
+            n = self.len
+        else:
+            hi = self.maxlen if self.maxlen is not None else max(self.minlen + 12, 12)
+            n = rng.choice([self.minlen, self.minlen, min(hi, self.minlen + 1), rng.randint(self.minlen, hi)])
+        mode = rng.random()
+        if mode < 0.2:
+            return repr(bytes(n))
+        if mode < 0.4:
+            return repr(b"\xff" * n)
+        return repr(bytes(rng.getrandbits(8) for _ in range(n)))
+
     def __init__(self, len, minlen, maxlen):
         self.len, self.minlen, self.maxlen = len, minlen, maxlen
 
@@ -236,6 +270,22 @@ class _PBytes(P):
 
 
 class _PStr(P):
+    def sample(self, rng):
+        hi = self.maxlen if self.maxlen is not None else max(self.minlen + 8, 8)
+        n = rng.choice([self.minlen, min(hi, self.minlen + 1), rng.randint(self.minlen, hi)])
+        out = []
+        alphabet = [c for c in "abcXYZ_09 .:[]{},/\\-é\xff\u0100\u20ac\U0001f600" if ord(c) <= self.maxcp and c not in self.free_of]
+        if "digits" in self.props:
+            alphabet = list("0123456789")
+        if "lower" in self.props:
+            alphabet = [c for c in alphabet if c.lower() == c]
+        for k in range(n):
+            ch = rng.choice(alphabet)
+            if "nondigit" in self.props and k == 0 and ch.isdigit():
+                ch = "a"
+            out.append(ch)
+        return repr("".join(out))
+
     def __init__(self, minlen, maxlen, free_of, maxcp, props):
         self.minlen, self.maxlen, self.free_of, self.maxcp, self.props = minlen, maxlen, free_of, maxcp, props
 
@@ -266,6 +316,12 @@ class _PStr(P):
 
 
 class _PNumeral(P):
+    def sample(self, rng):
+        hi = self.hi if self.hi is not None else 10**6
+        pool = [x for x in (0, 1, 9, 10, 15, 16, 99, 100, 255, 256, 999, 1000, 4095, 4096, 65535, 65536, hi, self.lo)
+                if self.lo <= x <= hi]
+        return repr(str(rng.choice(pool + [rng.randint(self.lo, hi)])))
+
     def __init__(self, lo, hi):
         self.lo, self.hi = lo, hi
 
@@ -284,6 +340,9 @@ class _PNumeral(P):
 
 
 class _PAny(P):
+    def sample(self, rng):
+        return "object()"
+
     def make(self, name):
         from .sym import ctx, SAny
         return SAny(ctx().fresh_name(name))
@@ -293,6 +352,15 @@ class _PAny(P):
 
 
 class _PFloat(P):
+    def sample(self, rng):
+        import struct
+        pool = ["0.0", "-0.0", "1.5", "-2.25", "3.4028234663852886e+38", "1e-45", "1e39", "1.7976931348623157e308",
+                "float('inf')", "float('-inf')", "float('nan')", "0.1", "1e-320", "16777217.0"]
+        if rng.random() < 0.6:
+            return rng.choice(pool)
+        v = struct.unpack("<d", bytes(rng.getrandbits(8) for _ in range(8)))[0]
+        return repr(v) if v == v and abs(v) != float("inf") else "float('nan')"
+
     def make(self, name):
         from .sym import ctx, SFloat
         from .lib import F64
@@ -304,6 +372,9 @@ class _PFloat(P):
 
 
 class _PConst(P):
+    def sample(self, rng):
+        return self.expr
+
     def __init__(self, expr):
         self.expr = expr
 
@@ -316,6 +387,9 @@ class _PConst(P):
 
 
 class _POneOf(P):
+    def sample(self, rng):
+        return rng.choice(self.alts).sample(rng)
+
     def __init__(self, alts):
         self.alts = [_lift(a) for a in alts]
 
@@ -339,6 +413,9 @@ class _Tagged:
 
 
 class _PList(P):
+    def sample(self, rng):
+        return "[" + ", ".join(self.elem.sample(rng) for _ in range(self.n)) + "]"
+
     def __init__(self, elem, n):
         self.elem, self.n = _lift(elem), n
 
@@ -350,6 +427,9 @@ class _PList(P):
 
 
 class _PTuple(P):
+    def sample(self, rng):
+        return "(" + "".join(e.sample(rng) + ", " for e in self.elems) + ")"
+
     def __init__(self, elems):
         self.elems = [_lift(e) for e in elems]
 
@@ -361,6 +441,9 @@ class _PTuple(P):
 
 
 class _PDict(P):
+    def sample(self, rng):
+        return "{" + ", ".join(f"{k!r}: {p.sample(rng)}" for k, p in self.items.items()) + "}"
+
     def __init__(self, items):
         self.items = {k: _lift(v) for k, v in items.items()}
 
@@ -372,6 +455,11 @@ class _PDict(P):
 
 
 class _PObj(P):
+    def sample(self, rng):
+        a = [p.sample(rng) for p in self.args]
+        k = [f"{n}={p.sample(rng)}" for n, p in self.kwargs.items()]
+        return f"{self.ctor}({', '.join(a + k)})"
+
     def __init__(self, ctor, args, kwargs):
         self.ctor = ctor
         self.args = [_lift(a) for a in args]
@@ -397,6 +485,9 @@ class _Made:
 
 
 class _PConcat(P):
+    def sample(self, rng):
+        return "(" + " + ".join(p.sample(rng) for p in self.parts) + ")"
+
     """concatenation of str / bytes parts"""
 
     def __init__(self, parts):
@@ -416,6 +507,9 @@ class _PConcat(P):
 
 
 class _PStream(P):
+    def sample(self, rng):
+        return f"io.BytesIO({self.buf.sample(rng)})"
+
     def __init__(self, buf):
         self.buf = _lift(buf)
 
